@@ -172,6 +172,13 @@ class Ctx:
         self._viol_seen = {}
         self.replay_n = 0
         os.makedirs(BUILD, exist_ok=True)
+        # stale witnesses of an earlier run with the same (property, tier, seed) would be confusing
+        import glob
+        for old in glob.glob(os.path.join(VERIF, "replays", "%s-%s-%d-*.json" % (prop, tier, seed))):
+            try:
+                os.unlink(old)
+            except OSError:
+                pass
         self.scratch = tempfile.mkdtemp(prefix="verif-%s-" % prop, dir=os.path.join(BUILD))
 
     # ---- bookkeeping -------------------------------------------------
